@@ -534,10 +534,31 @@ func genDoc(o DocOpts) *rapid.Generator[Doc] {
 			}
 		}
 		_ = hasChord // `write` accepts documents made of rests only
+		capTotal(&d)
 		d.Flags = genFlags(o).Draw(t, "flags")
 		d.Plain = coin(t, "plain-yaml", 35)
 		return d
 	})
+}
+
+// capTotal keeps a generated piece inside the domain the timing properties
+// quantify over ("as long as the total stays below 2^28 ticks"): trailing
+// instances are dropped until the exact total is below 2^28 - 2^16 ticks at
+// 960 ticks per quarter. A silence that long cannot be written as one MIDI
+// delta time and crd refuses it; C06 and C08 build such pieces on purpose, as
+// classes of their own where a refusal is accepted.
+func capTotal(d *Doc) {
+	limit := big.NewRat(1<<28-1<<16, 3840) // in whole notes
+	sum := new(big.Rat)
+	for i, in := range d.Insts {
+		for _, v := range in.Values {
+			sum.Add(sum, big.NewRat(int64(v.N), int64(v.D)))
+		}
+		if sum.Cmp(limit) >= 0 && i > 0 {
+			d.Insts = d.Insts[:i:i]
+			return
+		}
+	}
 }
 
 // -------------------------------------------------------------------- model
